@@ -268,7 +268,7 @@ def main():
 
         known = load_known()
         inconclusive = [r for r in results if r['status'] != 'complete']
-        vacuous = [r for r in results if r['status'] == 'complete' and not r['covers']]
+        vacuous = [r for r in results if r['status'] == 'complete' and not r['covers'] and not r['paths'].get('expected-panic')]
         # native validation of engine paths
         validated = 0
         disagreements = []
